@@ -1,6 +1,6 @@
 (* Properties_C20.v — the theorems that decide property C20 on the model, each stated in full and closed by
    `exact <lemma>`; the lemmas live in the Proofs_*.v files.  Nothing else belongs in this file. *)
-From Theo Require Import Base VMModel VMSpec VMStatements Proofs_VM_mem CompiledStatements Regex Tokens Errors Lexer Scan MacroExtract Grammar LR MacroApply Parser VMCheck VMCheckStatements GenModel Compile Gen_Lexer Gen_Consts CompileStatements Proofs_Compiled.
+From Theo Require Import Base VMModel VMSpec VMStatements Proofs_VM_mem CompiledStatements Regex Tokens Errors Lexer Scan MacroExtract Grammar LR MacroApply Parser VMCheck VMCheckStatements GenModel Compile Gen_Lexer Gen_Consts CompileStatements Proofs_Compiled PrioStatements Proofs_Prio.
 Local Open Scope Z_scope.
 
 Theorem C20_range :
@@ -44,3 +44,25 @@ Theorem C20_compiled :
     Forall word_ok (data s).
 Proof. exact C20_compiled_proof. Qed.
 Print Assumptions C20_compiled.
+
+Theorem C20_priority_word :
+  forall toks errs out macros, extract_macros toks = Ok (errs, out, macros) ->
+    Forall (fun m => - INT_MAX - 1 <= m_priority m <= INT_MAX) macros.
+Proof. exact C20_priority_word_proof. Qed.
+Print Assumptions C20_priority_word.
+
+Theorem C20_priority_range :
+  forall toks errs out macros, eof_terminated toks -> extract_macros toks = Ok (errs, out, macros) ->
+    forall i d p n,
+      znth toks i = Some d -> znth toks (i + 1) = Some p -> znth toks (i + 2) = Some n ->
+      tk d = DEFINE -> tk p = PRIORITY -> tk n = INT -> INT_MAX <= strtol (ttext n) ->
+      (forall e, In e errs -> pe_kind e <> e_macro_nested_define /\ pe_kind e <> e_macro_nested_as /\
+                              pe_kind e <> e_macro_expect) ->
+      exists e, In e errs /\ pe_kind e = e_range.
+Proof. exact C20_priority_range_proof. Qed.
+Print Assumptions C20_priority_range.
+
+Theorem C20_priority_range_needs_guards :
+  ~ C20_priority_range_unguarded_stmt.
+Proof. exact C20_priority_range_needs_guards_proof. Qed.
+Print Assumptions C20_priority_range_needs_guards.
